@@ -50,7 +50,7 @@ def main():
         passed = sum(int(m) for m in re.findall(r'test result: \w+\. (\d+) passed', o))
         failed = sum(int(m) for m in re.findall(r'test result: \w+\. \d+ passed; (\d+) failed', o))
         res['steps']['suite_with_change'] = {'passed': passed, 'failed': failed, 'secs': round(time.time() - t0), 'errors': len(re.findall(r'^error', o, re.M))}
-        suite_ok = failed == 0 and passed >= 350 and 'error: could not compile' not in o
+        suite_ok = failed == 0 and passed >= 401 and rc == 0 and 'error: could not compile' not in o  # 401 = the suite on the repaired tree; a hung or killed binary lowers the count
         where = meta.get('where_to_put_demo')
         dst = os.path.join(wt, where)
         os.makedirs(os.path.dirname(dst), exist_ok=True)
